@@ -31,6 +31,7 @@ type c05Step struct {
 	Register *rRoute  `json:"register,omitempty"`
 	Req      *rReq    `json:"req,omitempty"`
 	Prog     []c05HOp `json:"prog,omitempty"`
+	Probe    bool     `json:"probe,omitempty"` // the observer names six parameters for a moment to look into the spare value slots
 }
 
 type c05Case struct {
@@ -40,8 +41,32 @@ type c05Case struct {
 
 type c05Logger struct {
 	echo.Logger
-	id int
+	id    int
+	owner int // the request that installed this logger
+	env   *c05Env
 }
+
+// a request-scoped logger must only ever be used while its own request is being served
+func (l *c05Logger) used() {
+	if l.env != nil && !l.env.concurrent && l.env.serving != 0 && l.env.serving != l.owner {
+		l.env.leak = fmt.Sprintf("logger installed by request %d was used while request %d was served", l.owner, l.env.serving)
+	}
+}
+func (l *c05Logger) Print(i ...interface{})                    { l.used() }
+func (l *c05Logger) Printf(format string, args ...interface{}) { l.used() }
+func (l *c05Logger) Printj(j log.JSON)                         { l.used() }
+func (l *c05Logger) Debug(i ...interface{})                    { l.used() }
+func (l *c05Logger) Debugf(format string, args ...interface{}) { l.used() }
+func (l *c05Logger) Debugj(j log.JSON)                         { l.used() }
+func (l *c05Logger) Info(i ...interface{})                     { l.used() }
+func (l *c05Logger) Infof(format string, args ...interface{})  { l.used() }
+func (l *c05Logger) Infoj(j log.JSON)                          { l.used() }
+func (l *c05Logger) Warn(i ...interface{})                     { l.used() }
+func (l *c05Logger) Warnf(format string, args ...interface{})  { l.used() }
+func (l *c05Logger) Warnj(j log.JSON)                          { l.used() }
+func (l *c05Logger) Error(i ...interface{})                    { l.used() }
+func (l *c05Logger) Errorf(format string, args ...interface{}) { l.used() }
+func (l *c05Logger) Errorj(j log.JSON)                         { l.used() }
 
 type c05Obs struct {
 	kind, hid     int
@@ -68,12 +93,17 @@ type c05Env struct {
 	e      *echo.Echo
 	nroute int
 	shared []string // an application-level slice the handlers pass to SetParamValues again and again
+	// sequential histories only: which request is being served, and a logger leak seen meanwhile
+	serving    int
+	leak       string
+	concurrent bool
 }
 
 var c05SharedPristine = []string{"s1", "s2", "s3", "s4", "s5", "s6"}
 
 type c05ReqState struct {
 	id    int
+	probe bool // look into the spare value slots before the handler runs
 	prog  []c05HOp
 	obs   c05Obs
 	inner []c05Inner
@@ -107,6 +137,22 @@ func c05NewEnv() *c05Env {
 				}()
 				o.values = append([]string{}, c.ParamValues()...)
 			}()
+			if st.probe {
+				// an application may name more parameters than the route has (SetParamNames): whatever
+				// becomes visible that way must be blank, not a value of an earlier request
+				names := append([]string{}, c.ParamNames()...)
+				c.SetParamNames("q0", "q1", "q2", "q3", "q4", "q5")
+				func() {
+					defer func() { recover() }()
+					all := c.ParamValues()
+					for i := len(names); i < len(all); i++ {
+						if all[i] != "" {
+							o.store = append(o.store, "stale-value-in-spare-slot", strconv.Itoa(i), all[i])
+						}
+					}
+				}()
+				c.SetParamNames(names...)
+			}
 			q := c.QueryParam("q")
 			if q == strconv.Itoa(st.id) {
 				o.staleQuery = "-"
@@ -164,7 +210,7 @@ func (env *c05Env) register(r rRoute) {
 			case "setPath":
 				c.SetPath(op.S)
 			case "setLogger":
-				c.SetLogger(&c05Logger{Logger: log.New("x"), id: op.A})
+				c.SetLogger(&c05Logger{Logger: log.New("x"), id: op.A, owner: st.id, env: env})
 			case "queryParam":
 				c.QueryParam("q")
 			case "writeHeader":
@@ -236,7 +282,22 @@ func (env *c05Env) serve(id int, q rReq, prog []c05HOp) c05Obs {
 }
 
 func (env *c05Env) serve2(id int, q rReq, prog []c05HOp) (c05Obs, []c05Inner) {
-	st := &c05ReqState{id: id, prog: prog}
+	return env.serve3(id, q, prog, false)
+}
+
+func (env *c05Env) serve3(id int, q rReq, prog []c05HOp, probe bool) (ro c05Obs, rin []c05Inner) {
+	st := &c05ReqState{id: id, prog: prog, probe: probe}
+	if !env.concurrent {
+		outer := env.serving
+		env.serving = id
+		defer func() {
+			env.serving = outer
+			if env.leak != "" {
+				ro.store = append(ro.store, "logger-leak", env.leak)
+				env.leak = ""
+			}
+		}()
+	}
 	func() {
 		defer func() {
 			if r := recover(); r != nil {
@@ -327,14 +388,25 @@ func c05Run(ci any) Result {
 			continue
 		}
 		reqID++
-		progW := []string{wInt(len(s.Prog))}
-		for _, op := range s.Prog {
-			progW = append(progW, c05HOpWire(op))
-		}
-		ops = append(ops, "0", wInt(reqID), wStr(s.Req.Method), wStr(s.Req.Path), strings.Join(progW, " "))
 		jobs = append(jobs, job{reqID, *s.Req, s.Prog, append([]rRoute(nil), routes...)})
+		var o c05Obs
+		var inner []c05Inner
 		if c.Concurrent == 0 {
-			o, inner := env.serve2(reqID, *s.Req, s.Prog)
+			o, inner = env.serve3(reqID, *s.Req, s.Prog, s.Probe)
+		}
+		{
+			progW := []string{}
+			if s.Probe && c.Concurrent == 0 && o.kind != 3 && (o.kind == 0 || o.kind == 1 || o.kind == 2) {
+				// for the model the probe is: SetParamNames(six names); SetParamNames(the route's names)
+				progW = append(progW, wJoin("1", wStrs([]string{"q0", "q1", "q2", "q3", "q4", "q5"})), wJoin("1", wStrs(o.names)))
+				tags = append(tags, "spare-slot-probe")
+			}
+			for _, op := range s.Prog {
+				progW = append(progW, c05HOpWire(op))
+			}
+			ops = append(ops, "0", wInt(reqID), wStr(s.Req.Method), wStr(s.Req.Path), wInt(len(progW))+" "+strings.Join(progW, " "))
+		}
+		if c.Concurrent == 0 {
 			obsParts = append(obsParts, o.wire())
 			for _, in := range inner {
 				tags = append(tags, "nested-request")
@@ -368,6 +440,7 @@ func c05Run(ci any) Result {
 	}
 	if c.Concurrent > 0 {
 		// all registrations happened (quiescent); now fire the requests from several goroutines
+		env.concurrent = true
 		tags = append(tags, "concurrent")
 		want := make([]string, len(jobs))
 		for i, j := range jobs {
@@ -465,7 +538,7 @@ func c05Gen(r *rand.Rand, tier string) []any {
 		c := &c05Case{}
 		var routes []rRoute
 		reg := func() {
-			rt := rRoute{[]string{"GET", "GET", "POST"}[r.Intn(3)], c05Paths[r.Intn(len(c05Paths))]}
+			rt := rRoute{Method: []string{"GET", "GET", "POST"}[r.Intn(3)], Path: c05Paths[r.Intn(len(c05Paths))]}
 			routes = append(routes, rt)
 			c.Steps = append(c.Steps, c05Step{Register: &rt})
 		}
@@ -479,7 +552,7 @@ func c05Gen(r *rand.Rand, tier string) []any {
 				reg()
 			}
 			q := rReq{Method: rGenMethod(r, routes), Path: rGenPath(r, routes)}
-			c.Steps = append(c.Steps, c05Step{Req: &q, Prog: c05GenProg(r)})
+			c.Steps = append(c.Steps, c05Step{Req: &q, Prog: c05GenProg(r), Probe: r.Intn(3) == 0})
 		}
 		if tier == "thorough" && i%10 == 0 || tier != "thorough" && i%25 == 0 {
 			c.Concurrent = 4 + r.Intn(12)
